@@ -158,8 +158,18 @@ func (s *c09Sess) cotRun() V {
 			held = append(held, b)
 		}
 	}
+	// blocks the object once held go back first: sync.Pool then hands them (dirty) to the
+	// object's next Malloc of that class, which exercises pooled reuse
 	for i := len(held) - 1; i >= 0; i-- {
-		mcache.Free(held[i])
+		if _, _, ok := s.lookup(c09Ptr(held[i])); ok {
+			mcache.Free(held[i])
+			held[i] = nil
+		}
+	}
+	for i := len(held) - 1; i >= 0; i-- {
+		if held[i] != nil {
+			mcache.Free(held[i])
+		}
 	}
 	return got
 }
@@ -854,7 +864,7 @@ func genC09(g *Gen) {
 	// ---- random reader histories ----
 	alpha := []int{0, 1, 2, 3, 7, 100, 1000, B - 1, B, B + 1, 2 * B, 2*B + 1, 10000, 20000}
 	small := []int{0, 1, 2, 3, 5, 8, 13, 40}
-	for i := 0; i < g.Scale(260, 6000); i++ {
+	for i := 0; i < g.Scale(600, 8000); i++ {
 		bytesKind := i%3 == 0
 		tiny := i%4 == 1
 		var dl int
@@ -953,8 +963,8 @@ func genC09(g *Gen) {
 	g.Add("bw/dir", Ls(I(3), Ls(I(1), PatV(1, 0), PatV(2, 0), PatV(3, 0)), Ls(wm(5), fill(0, 0, 4, 5), wb(5, 4100, 0), fl, fl, wm(1), fill(1, 0, 1, 1), fl)))
 	g.Add("bw/dir", Ls(I(3), Ls(I(1), PatV(1, 0), PatV(2, 0), PatV(3, 0)), Ls(fl, wl)))
 	wsz := []int{0, 1, 3, 100, 1000, B - 1, B, B + 1, 10000, 30000}
-	for i := 0; i < g.Scale(200, 5000); i++ {
-		tiny := i%4 == 1
+	for i := 0; i < g.Scale(450, 7000); i++ {
+		tiny := (i/2)%2 == 1
 		kind := 2 + i%2
 		var params V
 		if kind == 2 {
@@ -1039,7 +1049,7 @@ func genC09(g *Gen) {
 		g.Add(cls, Ls(I(kind), params, ops))
 	}
 	// ---- ReaderSkipDecoder ----
-	for i := 0; i < g.Scale(160, 4000); i++ {
+	for i := 0; i < g.Scale(350, 6000); i++ {
 		tiny := i%3 == 1
 		mk := func() (V, VL) {
 			var parts VL = VL{I(1)}
